@@ -629,6 +629,7 @@ def run(ctx: Ctx):
 from ..mutants import Mut  # noqa: E402
 
 MUTANTS = [
+    Mut("twin-cleanup-get-then-pop", "urwid/canvas.py", "CanvasCache.cleanup", "        w = cls._refs.pop(ref, None)\n", "        w = cls._refs.get(ref, None)\n        cls._refs.pop(ref, None)\n", twin=True),
     Mut("twin-listbox-zero-row-record-own-test", "urwid/widget/listbox.py", "ListBox.calculate_visible", "            else:\n                self._zero_row_items.append(next_pos)\n", "            if not n_rows:\n                self._zero_row_items.append(next_pos)\n", twin=True),
     Mut("cleanup-del-after-get", "urwid/canvas.py", "CanvasCache.cleanup", "        w = cls._refs.pop(ref, None)\n", "        w = cls._refs.get(ref, None)\n        del cls._refs[ref]\n", "GUARD|canvas.CanvasCache.cleanup|cleanup: unprotected del after .get() of the same key"),
     Mut("listbox-zero-row-item-not-recorded", "urwid/widget/listbox.py", "ListBox.calculate_visible", "            else:\n                self._zero_row_items.append(next_pos)\n", "", "HIDDEN-DEP|widget.listbox.ListBox.calculate_visible|zero-row filter on n_rows without a record"),
